@@ -41,10 +41,10 @@ TOps == <<"add_t", "radd_t", "sub_t", "rsub_t">>
 \*               6 batch of constants (b,1,1), 7 batch of constants with a negative and a zero member
 SKinds == 1..7
 SOps == <<"mul", "rmul", "div">>
-UOps == <<"expand_neg1", "expand_lead", "expand_one", "repeat", "unsqueeze0", "unsqueeze_m3", "squeeze", "permute", "sum_b", "sum_m1",
+UOps == <<"permute3", "sum_b1", "expand_neg1", "expand_lead", "expand_one", "repeat", "unsqueeze0", "unsqueeze_m3", "squeeze", "permute", "sum_b", "sum_m1",
           "sum_m2", "transpose_b", "add_diag_0d", "add_diag_1", "add_diag_n", "add_diag_b1", "add_diag_bn", "add_jitter">>
 POps == <<"mul_op", "add_low_rank", "cat_rows", "prod_b", "mul_t">>
-UBatches == << <<>>, <<2>>, <<1, 2>>, <<2, 1>> >>
+UBatches == << <<>>, <<2>>, <<1, 2>>, <<2, 1>>, <<2, 3, 2>> >>
 
 Mk(fam, a, b, op, bp, k) ==
   [fam |-> fam, a |-> a, b |-> b, op |-> op, bp |-> bp, k |-> k,
@@ -56,7 +56,7 @@ Pick(d) == \* quick tier: one batch configuration per (family, classes, op), rot
   ELSE CASE d.fam = "bin" -> d.bp = BPairs[(((d.k \div 8)) % Len(BPairs)) + 1]
          [] d.fam = "tens" -> d.bp = BPairs[(((d.k \div 8)) % Len(BPairs)) + 1]
          [] d.fam = "scal" -> d.bp[1] = UBatches[(((d.k \div 4)) % Len(UBatches)) + 1]
-         [] d.fam = "un" -> d.bp[1] = UBatches[(((d.k \div 4)) % Len(UBatches)) + 1]
+         [] d.fam = "un" -> (d.bp[1] = UBatches[(((d.k \div 4)) % Len(UBatches)) + 1] \/ d.op \in {"permute3", "sum_b1"})
          [] d.fam = "psd" -> d.bp[1] = UBatches[(((d.k \div 4)) % Len(UBatches)) + 1]
 
 
@@ -69,6 +69,9 @@ Ok(d) ==
   /\ (d.fam = "bin" /\ d.op = "add" /\ d.b \in RootLike => d.a \in PdSet)
   /\ (d.fam = "un" /\ d.op \in {"squeeze", "expand_one"} => Len(d.bp[1]) > 0 /\ \E i \in 1..Len(d.bp[1]) : d.bp[1][i] = 1)
   /\ (d.fam = "un" /\ d.op \in {"permute", "transpose_b"} => Len(d.bp[1]) = 2)
+  /\ (d.fam = "un" /\ d.op \in {"permute3", "sum_b1"} => Len(d.bp[1]) = 3)
+  \* three batch dimensions only for the operations whose index arithmetic depends on them
+  /\ (Len(d.bp[1]) = 3 => (d.fam = "un" /\ d.op \in {"permute3", "sum_b1", "sum_b", "unsqueeze_m3"}))
   /\ (d.fam = "un" /\ d.op \in {"sum_b", "unsqueeze_m3"} => Len(d.bp[1]) > 0)
   /\ (d.fam = "psd" /\ d.op = "prod_b" => Len(d.bp[1]) > 0)
   /\ (d.fam = "psd" /\ d.op # "mul_op" => d.b = PdCls[1])
@@ -155,6 +158,8 @@ Apply ==
               [] op = "unsqueeze_m3" -> LET e == Al_Unsqueeze(da, -3) IN r' = e /\ Log(op, -3, e)
               [] op = "squeeze" -> LET d == (CHOOSE i \in 1..nb : b[i] = 1) - 1 e == Al_Squeeze(da, d) IN r' = e /\ Log(op, d, e)
               [] op = "permute" -> LET pm == <<1, 0, 2, 3>> e == Al_Permute(da, pm) IN r' = e /\ Log(op, pm, e)
+              [] op = "permute3" -> LET pm == <<1, 2, 0, 3, 4>> e == Al_Permute(da, pm) IN r' = e /\ Log("permute", pm, e)
+              [] op = "sum_b1" -> LET e == Al_Sum(da, 1) IN r' = e /\ Log("sum_b", 1, e)
               [] op = "transpose_b" -> LET e == Al_Transpose(da, 0, 1) IN r' = e /\ Log(op, <<0, 1>>, e)
               [] op = "sum_b" -> LET e == Al_Sum(da, 0) IN r' = e /\ Log(op, 0, e)
               [] op = "sum_m1" -> LET e == Al_Sum(da, -1) IN r' = e /\ Log(op, -1, e)
@@ -181,7 +186,7 @@ Apply ==
 TailOp ==
   /\ pc = 3 /\ pc' = 4
   /\ LET rk == T_Rank(r) sq == rk >= 2 /\ T_Last(r.shape) = T_Last2(r.shape)
-         t == desc.k % 5
+         t == desc.k % 7
      IN IF rk < 2 \/ desc.op = "div" THEN hist' = hist
         ELSE CASE t = 0 -> LET X == G_Int(<<T_Last(r.shape), 2>>, sd + 31) IN Log("tail_matmul", X, T_MatMulAny(r, X))
                [] t = 1 -> IF sq THEN LET d == G_Int(<<T_Last(r.shape)>>, sd + 33) IN Log("tail_add_diagonal", d, Al_AddDiagonal(r, d))
@@ -189,6 +194,10 @@ TailOp ==
                [] t = 2 -> Log("tail_mul", T_Scalar(-2), T_Scale(r, -2))
                [] t = 3 -> LET T == G_Int(<<T_Last2(r.shape), T_Last(r.shape)>>, sd + 35) IN Log("tail_rsub_t", T, T_Sub(T, r))
                [] t = 4 -> LET X == G_Int(<<T_Last2(r.shape)>>, sd + 37) IN Log("tail_t_matmul", X, T_MatMulAny(T_Transpose(r), X))
+               \* batch reductions / batch indexing of the lazily built result
+               [] t = 5 -> IF rk > 2 THEN Log("tail_sum_b", 0, T_SumDim(r, 0)) ELSE Log("tail_transpose", <<>>, T_Transpose(r))
+               [] t = 6 -> IF rk > 2 THEN Log("tail_getitem_b", r.shape[1] - 1, T_Select(r, 0, r.shape[1] - 1))
+                           ELSE Log("tail_mul", T_Scalar(-2), T_Scale(r, -2))
   /\ UNCHANGED <<desc, ta, tb, da, db, r>>
 
 Emit == /\ pc = 4 /\ pc' = 5 /\ UNCHANGED <<desc, ta, tb, da, db, r, hist>>
